@@ -338,6 +338,15 @@ class Walker:
                             continue
                         self.walk(case.body + stmts[i + 1:], dict(env), (tests, tr, id(st), st))
                     return
+                subj = st.subject
+                if isinstance(subj, (ast.Tuple, ast.List)) and subj.elts and all(
+                        isinstance(el, ast.Compare) and len(el.comparators) == 1 and isinstance(el.comparators[0], ast.Constant) and el.comparators[0].value == 0
+                        for el in subj.elts):
+                    self.n_match += 1
+                    self.ctx.ob("C09.a", f"{self.f.short}: match {ast.unparse(subj)} tests the cell's own learning rates", False,
+                                "a sign-mode test must compare exactly one `state.<learning rate>` (optionally times the scalar signal) with 0; "
+                                "this one does not read the per-cell state, so a cell registered with overriding learning rates is routed by the trainer's defaults",
+                                self.ctx.prog.loc(self.f, st), subj)
                 for case in st.cases:
                     self.walk(case.body, dict(env), mode)
                 continue
